@@ -140,13 +140,14 @@ func meaningKeys(j *ast.Journal) []string {
 		case ast.AccountDirective:
 			out = append(out, fmt.Sprintf("account %q comment%q[%s] %v", v.Account.Name, strings.TrimSpace(v.Comment), tagsKey(v.Tags), v.Subdirs))
 		case ast.CommodityDirective:
-			out = append(out, fmt.Sprintf("commodity %q format%q %v", v.Commodity.Symbol, v.Format, v.Subdirs))
+			// a directive line may lose its trailing blanks: an unterminated quoted symbol ends with the line
+			out = append(out, fmt.Sprintf("commodity %q format%q %v", strings.TrimRight(v.Commodity.Symbol, " \t"), v.Format, v.Subdirs))
 		case ast.PriceDirective:
 			out = append(out, fmt.Sprintf("P %04d-%02d-%02d %q %s", v.Date.Year, v.Date.Month, v.Date.Day, v.Commodity.Symbol, amountKey(&v.Price)))
 		case ast.YearDirective:
 			out = append(out, fmt.Sprintf("Y %d", v.Year))
 		case ast.DefaultCommodityDirective:
-			out = append(out, fmt.Sprintf("D %q %q", v.Symbol, v.Format))
+			out = append(out, fmt.Sprintf("D %q %q", strings.TrimRight(v.Symbol, " \t"), strings.TrimRight(v.Format, " \t")))
 		default:
 			out = append(out, fmt.Sprintf("%T", d))
 		}
